@@ -43,8 +43,10 @@ func ExecutableDataToPayload(data *engine.ExecutableData, beaconRoot []byte, exe
 }
 
 func PayloadToExecutableData(data *ExecutionPayload) *engine.ExecutableData {
-	if data.Transactions == nil {
-		data.Transactions = [][]byte{}
+	// don't write to the payload: it's shared with the goroutine verifying the proposal
+	txs := data.Transactions
+	if txs == nil {
+		txs = [][]byte{}
 	}
 
 	res := &engine.ExecutableData{
@@ -61,7 +63,7 @@ func PayloadToExecutableData(data *ExecutionPayload) *engine.ExecutableData {
 		ExtraData:     data.ExtraData,
 		BaseFeePerGas: data.BaseFeePerGas.BigInt(),
 		BlockHash:     common.BytesToHash(data.BlockHash),
-		Transactions:  data.Transactions,
+		Transactions:  txs,
 		Withdrawals:   []*ethtypes.Withdrawal{},
 		BlobGasUsed:   &data.BlobGasUsed,
 		ExcessBlobGas: &data.ExcessBlobGas,
